@@ -92,8 +92,16 @@ theorem C30_recovery_true_succeeds_once (φ : Oracle) (n : Nat) (prog : Prog) (s
     catchRes (solveInj resBall φ (n + 6) prog) (n + 6) s g (errCatcher e v) (.atom "true")
       = Res.one ⟨(v, .atom "[]") :: (e, resFormal) :: s.σ, c'⟩ := by
   rw [C30_caught_and_state_restored _ n s g (.atom "true") e v c' he hv hne ho hx]
-  simp [callGoal, resolve, callResolved, callBody, addArgs, bodyOk, solveInj, hφ, step, classify,
-    Res.one, hs]
+  have ht : solveInj resBall φ (n + 6) prog (.atom "true") ⟨(v, .atom "[]") :: (e, resFormal) :: s.σ, c'⟩
+      = Res.one ⟨(v, .atom "[]") :: (e, resFormal) :: s.σ, c'⟩ := by
+    rw [C30_faulted_run_uses_reference_step φ (n + 5) prog _ _ hφ]
+    simp [step, classify]
+  have hR : callGoal (solveInj resBall φ (n + 6) prog) (n + 6)
+      ⟨(v, .atom "[]") :: (e, resFormal) :: s.σ, c'⟩ (.atom "true") []
+      = Res.one ⟨(v, .atom "[]") :: (e, resFormal) :: s.σ, c'⟩ := by
+    simp [callGoal, resolve, callResolved, callBody, addArgs, bodyOk, ht, Res.one]
+  simp only [hR]
+  simp [Res.one, hs]
 
 /-- **Fault transparency after recovery.**  `(catch(G, error(E,V), true), K)`: once the fault is
     handled, the continuation `K` runs in the recovered state exactly as the (faulted) interpreter
@@ -122,20 +130,13 @@ theorem C30_continuation_runs_from_recovered_state (φ : Oracle) (n : Nat) (prog
     exact C30_recovery_true_succeeds_once φ n prog s g e v c' he hv hne ho hx hs hφ
   rw [C30_faulted_run_uses_reference_step φ (n + 7) prog _ s hφk]
   simp only [step, classify, hc, conjRes, Res.one, seqLoop]
-  by_cases h1 : rK.oof = true
-  · simp [rK, h1, Res.oofR] at *
-    simp [h1, Res.oofR]
-  · have h1' : rK.oof = false := by simpa using h1
-    by_cases h2 : (rK.exc.isSome || rK.cut) = true
-    · simp [rK, h1', h2] at *
-      simp [h1', h2]
-    · have h2' : (rK.exc.isSome || rK.cut) = false := by simpa using h2
-      have hcut : rK.cut = false := by
-        cases hc' : rK.cut <;> simp_all
-      have hexc : rK.exc = none := by
-        cases hx' : rK.exc <;> simp_all
-      simp [rK, h1', h2', Res.none] at *
-      simp [h1', h2', hcut, hexc, Res.none, Res.oofR]
+  show _ = if rK.oof then Res.oofR
+        else if rK.exc.isSome || rK.cut then ⟨rK.sols, rK.exc.isNone, rK.exc, false⟩
+        else ⟨rK.sols, false, none, false⟩
+  have hrk : solveInj resBall φ (n + 7) prog k s' = rK := rfl
+  rw [hrk]
+  rcases rK with ⟨sols, cut, exc, oof⟩
+  cases oof <;> cases cut <;> cases exc <;> simp [Res.oofR, Res.none]
 
 /-- **A catcher that does not unify lets the fault pass**: same ball, same copy, no recovery goal. -/
 theorem C30_nonmatching_catch_propagates (rec : Term → St → Res) (n : Nat) (s : St) (g c r : Term)
@@ -155,9 +156,6 @@ theorem C30_denied_alloc_is_throw (deny : Nat → Bool) (n g j : Nat) (rest : Li
     exec deny (.alloc n g :: rest) none s
       = exec deny (.throwRes :: rest) none { s with att := s.att + j + 1 } := by
   simp only [exec, h]
-  cases unwind s.frames with
-  | none => rfl
-  | some x => obtain ⟨f, fs, d⟩ := x; rfl
 
 /-- **Fault at any growth inside catch/3: caught, heap top and frames restored, rest abandoned.**
     `catch(G, <matching>, true), Post` where `G` = allocations `pre` whose growth attempts are all
@@ -219,9 +217,10 @@ theorem C30_schedule (k : Nat) (hk : 1 ≤ k) (p : Bool) :
     have hk0 : k ≠ 0 := by omega
     simp [schedule, this, hk0]
   · intro i hi
-    have h1 : ¬ (i + 1 = k) := by omega
-    have hk0 : k ≠ 0 := by omega
-    simp [schedule, h1, hi, hk0]
+    have h3 : (k != 0) = true := by simp; omega
+    have h4 : (i + 1 == k) = false := by simp; omega
+    have h5 : decide (i + 1 > k) = true := by simp; omega
+    simp [schedule, h3, h4, h5]
 
 /-! ## bridge to the byte-level heap model (C33) -/
 
@@ -241,11 +240,12 @@ theorem C30_failed_heap_operation_keeps_heap (h h' : Heap.Heap) (op : Heap.Op) (
 /-- a concrete faulted run on the reference interpreter: `catch((X = 1, '$alloc'), error(E,V), true)`
     with a fault at `'$alloc'` succeeds with `E`/`V` bound and `X` unbound again. -/
 example :
-    let φ : Oracle := fun g _ => g == .atom "$alloc"
-    let g := Term.str "catch" [.str "," [.str "=" [.var "X", .int 1], .atom "$alloc"],
-                errCatcher "E" "V", .atom "true"]
-    (solveInj resBall φ 12 [] g ⟨[], 0⟩).sols.map (·.σ)
-      = [[("V", .atom "[]"), ("E", resFormal)]] := by decide
+    (solveInj resBall (fun g _ => match g with | .atom "$alloc" => true | _ => false) 12 []
+        (Term.str "catch" [.str "," [.str "=" [.var "X", .int 1], .atom "$alloc"],
+                errCatcher "E" "V", .atom "true"]) ⟨[], 0⟩).sols.map
+      (fun st => (match lookup st.σ "E" with | some (.str "resource_error" [.atom "memory"]) => true | _ => false)
+                  && (lookup st.σ "X").isNone)
+      = [true] := by decide
 
 /-- k-th growth denied inside a matching catch/3, persistent plan: caught, heap top restored. -/
 example : exec (schedule 2 true) [.enter true, .alloc 10 1, .alloc 20 1, .alloc 5 1, .leave, .alloc 1 0]
